@@ -91,3 +91,45 @@ Proof.
   exists (form_l m). split; [exact N|]. split; [exact F|]. intros evi. rewrite <- F at 1. now apply groups_are_or_of_ands.
 Qed.
 Print Assumptions marker_is_formula.
+
+(* ---------------- every variable the grammar accepts is defined in the effective environment: no KeyError ---------------- *)
+Lemma shape_sides d : forall e, pfa d e -> forall x, In x (sides_e e) -> wf_side x.
+Proof.
+  induction d as [|d IH]; intros e H; [contradiction|].
+  destruct e as [l o r | m | w]; cbn [pfa] in H; try contradiction.
+  - destruct H as (Wl & _ & Wr). intros x [<-|[<-|[]]]; assumption.
+  - rewrite sides_nested. induction H as [a Ha | a w t Ha Hw Ht IHt] using alt_ind2; cbn [sides_l]; intros x Hx.
+    + rewrite app_nil_r in Hx. eapply IH; eauto.
+    + apply in_app_or in Hx as [Hx|Hx]; [eapply IH; eauto | auto].
+Qed.
+Lemma shape_sides_l d m : pfm d m -> forall x, In x (sides_l m) -> wf_side x.
+Proof. intros H. rewrite <- sides_nested. apply (shape_sides (S d) (Nested m)). exact H. Qed.
+
+Definition typed (ov : option envmap) : Prop :=            (* None is a value for extra only *)
+  match ov with None => True | Some o => forall k, lookup k o = Some None -> k = w_extra end.
+Definition detects_all (defaults : list (str * str)) : Prop :=   (* default_environment() defines the 11 detected variables *)
+  forall n, In n canon_vars -> n = w_extra \/ exists v, lookup_d n defaults = Some v.
+
+Theorem env_complete defaults ov env : detects_all defaults -> typed ov -> effective_env defaults ov = Some env ->
+  forall n, In n canon_vars -> exists v, lookup n env = Some (Some v).
+Proof.
+  intros HD HT HE n Hn. rewrite (effective_env_lookup defaults ov env n HE).
+  assert (P : forall k, In k canon_vars -> exists v, pre_repair defaults ov k = Some (Some v)).
+  { intros k Hk. unfold pre_repair. destruct ov as [o|].
+    - destruct (lookup k o) as [[v|]|] eqn:E.
+      + eauto.
+      + rewrite (HT k E). rewrite str_eqb_refl. eauto.
+      + destruct (str_eqb k w_extra) eqn:Ek; [eauto|]. destruct (HD k Hk) as [->|[v Hv]]; [now rewrite str_eqb_refl in Ek|]. rewrite Hv. cbn. eauto.
+    - destruct (str_eqb k w_extra) eqn:Ek; [eauto|]. destruct (HD k Hk) as [->|[v Hv]]; [now rewrite str_eqb_refl in Ek|]. rewrite Hv. cbn. eauto. }
+  destruct (str_eqb n w_pfv) eqn:En.
+  - destruct (P w_pfv) as [v Hv]; [vm_compute; tauto|]. rewrite Hv. eauto.
+  - now apply P.
+Qed.
+Theorem no_keyerror s m defaults ov env : Marker s = MOk m -> detects_all defaults -> typed ov ->
+  effective_env defaults ov = Some env -> forall x, In x (sides_l m) -> side_value env x <> None.
+Proof.
+  intros HM HD HT HE x Hx. apply Marker_shape in HM as (Sh & _ & _).
+  pose proof (shape_sides_l _ _ Sh x Hx) as W. destruct x as [n|v]; cbn [side_value wf_side] in *; [|discriminate].
+  destruct (env_complete defaults ov env HD HT HE n W) as [v ->]. discriminate.
+Qed.
+Print Assumptions no_keyerror.
